@@ -17,8 +17,25 @@ REPO = os.environ.get("VX_REPO", "/repo")
 HARNESSES = {}
 
 
-def harness(name):
+def harness(name, raises_are_violations=False):
+    """Register a harness.  With raises_are_violations, an ordinary exception that
+    escapes the harness (i.e. the library raised on an input the harness built as
+    valid) is reported as a violation of the property instead of a harness crash;
+    it is replayed concretely like every other violation."""
+
     def deco(f):
+        if raises_are_violations:
+            import functools
+
+            @functools.wraps(f)
+            def g(ctx, p):
+                try:
+                    return f(ctx, p)
+                except Exception as ex:
+                    ctx.require(False, f"the library raised {type(ex).__name__} on a valid input")
+
+            HARNESSES[name] = g
+            return g
         HARNESSES[name] = f
         return f
 
